@@ -74,6 +74,37 @@ class LeanError(Exception):
         self.log = log
 
 
+import contextlib
+import fcntl
+
+_lean_lock_depth = 0
+
+
+@contextlib.contextmanager
+def lean_lock():
+    """Serialise everything that writes or reads the Lean build directory (regeneration of Gen/, lake build, the
+    axiom audit, leanchecker) across concurrently running checks: two `lake build` processes working on the same
+    module at the same time remove each other's .olean files.  Re-entrant within one process."""
+    global _lean_lock_depth
+    if _lean_lock_depth > 0:
+        _lean_lock_depth += 1
+        try:
+            yield
+        finally:
+            _lean_lock_depth -= 1
+        return
+    os.makedirs(WORK, exist_ok=True)
+    fh = open(os.path.join(WORK, "lean.lock"), "w")
+    fcntl.flock(fh, fcntl.LOCK_EX)
+    _lean_lock_depth = 1
+    try:
+        yield
+    finally:
+        _lean_lock_depth = 0
+        fcntl.flock(fh, fcntl.LOCK_UN)
+        fh.close()
+
+
 def lake_build(targets, timeout=1800):
     rc, out, err = sh(["lake", "build"] + targets, cwd=LEAN, timeout=timeout)
     if rc != 0:
@@ -300,8 +331,32 @@ def run_cases(exe, args, cases, chunk=None, timeout=300):
     return "".join(r[0] for r in res), [a for r in res for a in r[1]]
 
 
+_driver_copy = None
+
+
+def driver_exe():
+    """A private copy of the Lean driver for this process: `lake build` of a concurrently running check relinks
+    (removes and rewrites) lean/.lake/build/bin/cdsdriver, and a run that starts in that window would fail."""
+    global _driver_copy
+    if _driver_copy and os.path.exists(_driver_copy):
+        return _driver_copy
+    import shutil
+    with lean_lock():
+        if not os.path.exists(DRIVER):
+            lake_build(["cdsdriver"])
+        os.makedirs(BIN, exist_ok=True)
+        h = hashlib.sha256(open(DRIVER, "rb").read()).hexdigest()[:16]
+        dst = os.path.join(BIN, "cdsdriver-" + h)
+        if not os.path.exists(dst):
+            tmp = dst + ".%d" % os.getpid()
+            shutil.copy2(DRIVER, tmp)
+            os.replace(tmp, dst)
+    _driver_copy = dst
+    return dst
+
+
 def driver(cmd_args, text, timeout=900):
-    rc, out, err = sh([DRIVER] + cmd_args, input=text, timeout=timeout)
+    rc, out, err = sh([driver_exe()] + cmd_args, input=text, timeout=timeout)
     if rc != 0:
         raise RuntimeError("cdsdriver %s failed rc=%d: %s" % (cmd_args, rc, err[-500:]))
     return out
